@@ -378,6 +378,22 @@ def templates(w):
                 for outer in ('^', '-', '|', '&'):
                     yield 'compose-twins', Op(outer, c1, c2)
                 yield 'compose-twins', Op('+', c1, Op('-', c2))
+    # 7f sibling terms identical except for a nested constant, the two constants chosen to look alike to anything that digests
+    # them: the same residue modulo 2^61-1 (Python's integer hash), the same low half, the same bits but the top one
+    P61 = (1 << 61) - 1
+    pairs = [(1, 1 ^ (1 << (w - 1))), (0x7f & irsem.mask(w), (0x7f & irsem.mask(w)) ^ (1 << (w - 1)))]
+    if w == 64:
+        pairs += [(1, 1 << 61), (0x10, 0x10 + P61), (5, 5 + 3 * P61), (0x1234, 0x1234 + (1 << 32)), (0, P61)]
+    if w == 32:
+        pairs += [(0x1234, 0x1234 + (1 << 16)), (3, 3 + (1 << 31) - 1)]
+    for c1, c2 in pairs:
+        t1, t2 = Op('+', x, I(c1)), Op('+', x, I(c2))
+        for outer in ('^', '-', '|', '&', '+'):
+            yield 'const-twins', Op(outer, t1, t2)
+        yield 'const-twins', Op('+', t1, Op('-', t2))
+        yield 'const-twins', Op('==', t1, t2)
+        yield 'const-twins', Op('^', ex.ExprCond(x, I(c1), y), ex.ExprCond(x, I(c2), y))
+        yield 'const-twins', Op('^', Op('^', x, I(c1)), Op('^', y, I(c2)))
     # 8 ==
     for c in few:
         yield 'eq', Op('==', Op('|', x, I(c)), I(0))
